@@ -987,6 +987,36 @@ fn main() {
             println!("len_failed={}", fs.failures() > 0);
             println!("writer_new={}", if r.is_ok() { "Ok" } else { "Err" });
         }
+        "sched_iter_during_flush" => {
+            // an iterator is created while the flush writes its table file: the key lives only in the immutable memtable
+            use raindb::{RainDbIterator, ReadOptions, WriteOptions};
+            let fs = rdbv::faultfs::FaultFs::new();
+            let mut o = raindb::DbOptions::with_memory_env();
+            o.filesystem_provider = std::sync::Arc::new(fs.clone());
+            o.db_path = "db".to_string();
+            o.create_if_missing = true;
+            let db = std::sync::Arc::new(raindb::DB::open(o).expect("open"));
+            db.put(WriteOptions::default(), b"k".to_vec(), b"v".to_vec()).unwrap();
+            let seen: std::sync::Arc<std::sync::Mutex<String>> = std::sync::Arc::new(std::sync::Mutex::new("not-run".to_string()));
+            let (db2, seen2) = (std::sync::Arc::clone(&db), std::sync::Arc::clone(&seen));
+            fs.on_touch(".rdb", std::sync::Arc::new(move || {
+                let mut keys = vec![];
+                if let Ok(mut it) = db2.new_iterator(ReadOptions::default()) {
+                    let _ = it.seek_to_first();
+                    while it.is_valid() {
+                        if let Some((k, _)) = it.current() {
+                            keys.push(String::from_utf8_lossy(k).to_string());
+                        }
+                        if it.next().is_none() {
+                            break;
+                        }
+                    }
+                }
+                *seen2.lock().unwrap() = keys.join(",");
+            }));
+            let _ = db.flush_for_verif();
+            println!("iter_during_flush={}", seen.lock().unwrap());
+        }
         "vs_recover" => {
             // a database is created, written and closed; a fresh version set recovers from its files
             use raindb::WriteOptions;
